@@ -277,9 +277,10 @@ PROPS["C07"] = {
     "race": True,
     "model_is_spec": ["hist "],
     "required_theorems": ["no_scan_after_stop", "recorded_error_sticky", "err_precedence", "nil_only_after_complete", "scanner_bodies",
-                          "reader_loop_condition", "reader_stops_after_cancel", "consumer_state_private"],
+                          "reader_loop_condition", "reader_stops_after_cancel", "consumer_state_private", "goroutines_end",
+                          "blocking_ops_have_done_branch"],
     "technique": "Lean 4 state machine of Scan/Err/Close/cancel proved for all call histories (no Scan succeeds after a stop, Err precedence, nil only after a complete scan, recorded errors sticky) with the bodies of both scanners pinned to it; model of the reader goroutine's loop with the condition regenerated from the source (no new read once cancellation is visible) and the serializer's writes pinned away from the consumer's state; the real PBF and XML scanners driven through generated call histories and stopped at every position, with a counting reader, a goroutine dump and the Go race detector",
-    "level_text": "Machine-checked proof over all call histories of the scanner state machine: after Close or cancellation every later Scan returns false; Err reports the recorded error first (the regular end as nil), then the closed error, then the context's error, and - once stopped - nil only after a complete scan; a recorded error is never replaced. Scan/Err/Close of osmpbf and osmxml are pinned to the statements the machine describes. The reader goroutine's loop condition is read from the source: with it the reader begins no read after the cancellation is visible at the loop head; no goroutine of Start writes the consumer's current block, and Next reads the serializer's error only after seeing the queue closed. Partial: goroutine termination, the amount of input consumed and race freedom belong to the Go runtime; they are observed, not proved: generated call histories (stop at every position, before the first Scan to after the end) on both scanners compared with the state machine; 150-block files stopped after k objects by Close, by cancel, and by cancel from a second goroutine while scanning continues, with a counting reader (nothing read after Close returns; the rest of the input not consumed), a goroutine dump (none left) and the race detector.",
+    "level_text": "Machine-checked proof over all call histories of the scanner state machine: after Close or cancellation every later Scan returns false; Err reports the recorded error first (the regular end as nil), then the closed error, then the context's error, and - once stopped - nil only after a complete scan; a recorded error is never replaced. Scan/Err/Close of osmpbf and osmxml are pinned to the statements the machine describes. The reader goroutine's loop condition is read from the source: with it the reader begins no read after the cancellation is visible at the loop head; no goroutine of Start writes the consumer's current block, and Next reads the serializer's error only after seeing the queue closed. After cancellation all goroutines end under every schedule: in a transition system of the cancelled pipeline (reader, n decoders draining their queues, serializer; every blocking operation a select with a Done branch - pinned in the source: four selects, four Done branches) every step lowers a measure and while a goroutine is alive a step is enabled, so every maximal run ends with reader, decoders and serializer returned (select fairness is needed only for receives from closed queues and is explicit). Partial: goroutine termination, the amount of input consumed and race freedom belong to the Go runtime; they are observed, not proved: generated call histories (stop at every position, before the first Scan to after the end) on both scanners compared with the state machine; 150-block files stopped after k objects by Close, by cancel, and by cancel from a second goroutine while scanning continues, with a counting reader (nothing read after Close returns; the rest of the input not consumed), a goroutine dump (none left) and the race detector.",
     "level_note": "Trusted: Lean kernel; the fact extractor; Go runtime semantics of context, WaitGroup and channels. 'Promptly' is made concrete as: bytes pulled when Close returns do not grow afterwards, and the total stays within what the pipeline's queues can hold ahead of the consumer (2n+24 blocks).",
     "design_ref": "DESIGN.md §5 C07",
     "trusted_base": ["Go runtime: goroutines, channels, context, memory model", "Go race detector"],
